@@ -327,13 +327,43 @@ def _atom_name(c, bv) -> str | None:
     return None
 
 
+def builder_value(sm: SourceModel, f: Func):
+    """Abstract value of a scheme builder.  A builder that delegates to another builder (generalized RL = hybrid RL
+    with every state stiff) is expanded through it.  One model invariant is used: the state of every state derivative
+    met in ode.sorted_assignments() is one of ode.states (guaranteed by the pairing checks of C08), so
+    `x.state.name in [s.name for s in ode.states]` is true."""
+    from . import av
+
+    names = {b.name for b in scheme_builders(sm)}
+    A = av.AV(sm, inline=lambda c: av.AV.default_inline(c) or (c.name in names and c.rel == f.rel and c is not f))
+    v, _env = A.returned(f)
+    ode = f.params[0]
+
+    def all_state_names(seq) -> bool:
+        seq = av._unwrap_seq(seq)
+        while seq[0] == "call" and seq[1] in ("set", "frozenset", "sorted") and len(seq[2]) == 1:
+            seq = av._unwrap_seq(seq[2][0])
+        return seq[0] == "comp" and av._unwrap_seq(seq[2]) == ("sym", f"{ode}.states") and not seq[4] and seq[3] == (("attr", ("bv", seq[1]), "name"),)
+
+    def rw(t):
+        if not isinstance(t, tuple) or not t:
+            return t
+        if t[0] == "cmp" and t[1] == "in" and t[2][0] == "attr" and t[2][2] == "name" and t[2][1][0] == "attr" and t[2][1][2] == "state" and all_state_names(t[3]):
+            return av.C(True)
+        if not isinstance(t[0], str):
+            return tuple(rw(x) if isinstance(x, tuple) else x for x in t)
+        return (t[0],) + tuple(rw(x) if isinstance(x, tuple) else x for x in t[1:])
+
+    v2 = rw(v)
+    return av.renorm_deep(v2) if v2 != v else v
+
+
 def build_av(sm: SourceModel, f: Func):
     """SchemeModel of a builder from its abstract value, or None when the value is not one pass over the sorted
     assignments that is understood."""
     from . import av
 
-    A = av.AV(sm)
-    v, env = A.returned(f)
+    v = builder_value(sm, f)
     inner = av._unwrap_seq(v)
     if av.has_unk(v) or inner[0] != "comp" or inner[4]:
         return None
